@@ -368,6 +368,40 @@ pub trait Pricing {
     }
 }
 
+// ---- (b1012, round 9) `for x in v.iter_mut() { *x = e; }`, `.unwrap()` on the `Result` of a translated call (`Err` = panic),
+// `x.into()` through the one `impl From<_> for T` of the file
+pub struct Wide {
+    pub a: u64,
+    pub v: Vec<u64>,
+}
+pub struct Narrow {
+    pub a: u64,
+    pub n: u64,
+}
+impl From<Wide> for Narrow {
+    fn from(w: Wide) -> Self {
+        Narrow { a: w.a, n: w.v.len() as u64 }
+    }
+}
+pub fn checked_double(x: u64) -> Result<u64, ()> {
+    if x > 100 {
+        return Err(());
+    }
+    Ok(x * 2)
+}
+pub fn scale_all(v: &mut Vec<u64>, k: u64) -> Result<u64, ()> {
+    for x in v.iter_mut() {
+        *x = *x / 2 + 1;
+    }
+    let d = checked_double(k).unwrap();
+    if d == 14 {
+        return Err(());
+    }
+    let w = Wide { a: d, v: v.clone() };
+    let n: Narrow = w.into();
+    Ok(n.a + n.n)
+}
+
 // ---- round 9 (b1819): atomic counters, byte-string literals, `&str` locals bound to a literal, `let x = slice.try_into().unwrap()`
 pub struct Ctr {
     pub n: std::sync::atomic::AtomicU32,
